@@ -79,7 +79,7 @@ TH = 'head(c_timepoints[current_index])'   # the grid time the step is racing ag
 W = '(-ln(U(head(kappa()))) / Lambda)'     # waiting time drawn in this iteration (inverse-CDF of the exponential law)
 
 
-@fuc('simulator', 'SSASimulator.simulate', props=['C05', 'C06', 'C09'])
+@fuc('simulator', 'SSASimulator.simulate', props=['C05', 'C06', 'C09', 'C07'])
 def _(c):
     c.array('timepoints', ndim=1, elem='Real')
     c.requires('wf_sim(sim)')
